@@ -281,40 +281,31 @@ namespace smt
 
     SMT_EXPORT std::pair<inf_rational, inf_rational> rdl_theory::bounds(const lin &l) const
     {
-        inf_rational c_lb;
-        inf_rational c_ub;
+        // the bounds of 'c * e + k', given the bounds 'bs' of 'e' (a negative 'c' swaps them)..
+        const auto scale = [](const std::pair<inf_rational, inf_rational> &bs, const rational &c, const rational &k)
+        { return is_positive(c) ? std::make_pair(bs.first * c + k, bs.second * c + k) : std::make_pair(bs.second * c + k, bs.first * c + k); };
 
         switch (l.vars.size())
         {
         case 0:
-            c_lb += l.known_term;
-            c_ub += l.known_term;
-            break;
+            return std::make_pair(inf_rational(l.known_term), inf_rational(l.known_term));
         case 1:
         {
             auto it = l.vars.cbegin();
-            c_lb += lb(it->first) * it->second + l.known_term;
-            c_ub += ub(it->first) * it->second + l.known_term;
-            break;
+            return scale(bounds(it->first), it->second, l.known_term);
         }
         case 2:
-        {
-            const auto expr = l / l.vars.cbegin()->second;
-            auto it = expr.vars.cbegin();
+        { // the expression must have the form 'c * (v0 - v1) + k'..
+            auto it = l.vars.cbegin();
             const auto [v0, c0] = *it++;
-            assert(c0 == rational::ONE);
             const auto [v1, c1] = *it;
-            if (c1 != -rational::ONE)
+            if (c1 != -c0)
                 throw std::invalid_argument("not a valid real difference logic expression..");
-            const auto dist = distance(v0, v1);
-            c_lb += dist.first + expr.known_term;
-            c_ub += dist.second + expr.known_term;
-            break;
+            return scale(distance(v1, v0), c0, l.known_term);
         }
         default:
             throw std::invalid_argument("not a valid real difference logic expression..");
         }
-        return std::make_pair(c_lb, c_ub);
     }
 
     SMT_EXPORT std::pair<inf_rational, inf_rational> rdl_theory::distance(const lin &from, const lin &to) const
